@@ -454,24 +454,25 @@ func trunc(s string, n int) string {
 	return s
 }
 
-// execPerm completes the per-certificate checks one after the other in the
+// ForcedRun completes the per-certificate checks one after the other in the
 // prescribed priority order, holding every other exchange at the barrier.
-func execPerm(rec *Record, c Case) {
-	sc := c.Sc
-	env := sc.Prepare()
+// It returns the outcome, the observed completion order, whether the order
+// could be forced, and a goroutine dump if the call never returned.
+func ForcedRun(sc *sims.Scenario, order []int) (env *sims.Env, out *sims.Outcome, observed string, forced bool, stuck string) {
+	env = sc.Prepare()
 	bar := env.Net.UseBarrier()
 	var fhold *fetchGate
 	if env.Fetcher != nil {
 		fhold = newFetchGate(env.Fetcher, env.Net)
 	}
 	prio := map[int]int{}
-	for i, p := range c.Order {
+	for i, p := range order {
 		prio[p] = i
 	}
 	res := make(chan callResult, 1)
 	go func() { res <- callWithWatchdog(func() *sims.Outcome { return env.Run(context.Background()) }) }()
 	var cr callResult
-	forced := true
+	forced = true
 loop:
 	for {
 		// wait for quiescence: every live per-certificate goroutine is parked
@@ -534,20 +535,14 @@ loop:
 		}
 	}
 	if cr.stuck != "" {
-		stuckRecord(rec, cr.stuck)
-		return
+		return env, nil, "", forced, cr.stuck
 	}
-	out := cr.out
-	rec.Canon = sims.CanonString(sims.Canon(out.Results))
-	rec.Exchanges = len(out.Fetches)
+	out = cr.out
 	// observed completion order: order of the last exit per certificate
 	lastExit := map[int]int{}
 	for _, e := range out.Log {
 		if e.Kind == "exit" {
 			lastExit[posOfRoute(e.Route)] = e.Seq
-		}
-		if e.Kind == "request" {
-			rec.Exchanges++
 		}
 	}
 	var ps []int
@@ -555,10 +550,34 @@ loop:
 		ps = append(ps, p)
 	}
 	sort.Slice(ps, func(i, j int) bool { return lastExit[ps[i]] < lastExit[ps[j]] })
-	rec.Observed = fmt.Sprint(ps)
+	observed = fmt.Sprint(ps)
 	if !forced {
-		rec.Observed += " (not forced)"
+		observed += " (not forced)"
 	}
+	return env, out, observed, forced, ""
+}
+
+// Active returns the positions that perform at least one exchange.
+func Active(sc *sims.Scenario) []int { return active(sc) }
+
+// Permutations returns all permutations of 0..n-1.
+func Permutations(n int) [][]int { return permutations(n) }
+
+func execPerm(rec *Record, c Case) {
+	sc := c.Sc
+	env, out, observed, _, stuck := ForcedRun(&sc, c.Order)
+	if stuck != "" {
+		stuckRecord(rec, stuck)
+		return
+	}
+	rec.Canon = sims.CanonString(sims.Canon(out.Results))
+	rec.Exchanges = len(out.Fetches)
+	for _, e := range out.Log {
+		if e.Kind == "request" {
+			rec.Exchanges++
+		}
+	}
+	rec.Observed = observed
 	if d := compareWithReference(&sc, out); d != "" {
 		rec.Sig, rec.What = "schedule-dependent-result", d
 		return
